@@ -132,7 +132,7 @@ def _run(chk, tier, model_ok):
         cmds = [s[0] for s in sweep]
 
         def on_crash(cmd, rr, case=case):
-            crash_list.append((case.name, cmd, viewcorr.crash_key(rr)))
+            crash_list.append((case.name, cmd, viewcorr.crash_key(rr, cmd, case)))
         answers = viewcorr.run_surviving(case, cmds, on_crash, max_crashes=6)
         _check_case_outputs(chk, case, sweep, answers, stats)
         per_case.append((case, cmds, answers))
